@@ -192,6 +192,9 @@ class Ctx(object):
         # runs against a scratch copy of the repository (mutants, fixes under test) must not overwrite the evidence
         # of the tree under /repo
         d = os.path.join(VERIF, "evidence") if os.path.abspath(REPO) == "/repo" else os.path.join("/tmp", "verif-evidence-scratch")
+        if self.pid.startswith("G"):
+            # growth specifications (DESIGN section 7) are not tied to a listed property: their evidence lives apart
+            d = os.path.join(VERIF, "evidence-growth") if os.path.abspath(REPO) == "/repo" else d
         os.makedirs(d, exist_ok=True)
         tmp = os.path.join(d, ".%s.json.tmp" % self.pid)
         with open(tmp, "w") as f:
